@@ -459,5 +459,103 @@ class RegexKeyAdequacy(Lemma):
                              "sites": getattr(self, 'detail', None)}
 
 
+class QueryFrameBounded:
+    """BOUNDED stand-in (native, the real FlowIRConcrete end to end -- override_object, fill_in and type conversion included,
+    which the proofs above only see through assumed contracts): a QUERY does not change the stored description and does not
+    hand out live references into it.  After any sequence of queries (other components, other platforms, raw or resolved,
+    callers editing what they got) every answer equals the answer of a fresh object built from the same description, and
+    raw() is what it was.  The description has blueprint entries of every kind: scalars, lists, nested dictionaries with and
+    without variable references (e.g. resourceManager.kubernetes.podSpec), on the default and on another platform."""
+    name = 'query-frame[bounded,native]'
+
+    @staticmethod
+    def document():
+        return {
+            'platforms': ['default', 'hpc'],
+            'variables': {'default': {'global': {'q': 'normal', 'img': 'registry/default:1'}, 'stages': {0: {'sv': 's0'}}},
+                          'hpc': {'global': {'q': 'long', 'img': 'registry/hpc:2'}, 'stages': {}}},
+            'blueprint': {'default': {'global': {'command': {'environment': 'none'},
+                                                 'resourceManager': {'config': {'backend': 'local'},
+                                                                     'kubernetes': {'podSpec': {'nodeSelector': {'queue': 'fast-nodes'},
+                                                                                                'labels': ['a', 'b']}}}},
+                                      'stages': {0: {'resourceRequest': {'numberThreads': 2}}}},
+                          'hpc': {'global': {'resourceManager': {'lsf': {'queue': '%(q)s'},
+                                                                 'kubernetes': {'podSpec': {'tolerations': [{'key': 'hpc'}]}}}},
+                                  'stages': {}}},
+            'environments': {'default': {}},
+            'components': [
+                {'stage': 0, 'name': 'a', 'command': {'executable': 'echo', 'arguments': '%(q)s %(own)s'}, 'variables': {'own': 'A'},
+                 'resourceManager': {'kubernetes': {'podSpec': {'priority': 'high'}}}},
+                {'stage': 0, 'name': 'b', 'command': {'executable': 'echo', 'arguments': '%(q)s %(own)s'}, 'variables': {'own': 'B', 'q': 'mine'}},
+                {'stage': 1, 'name': 'c', 'command': {'executable': 'echo'}, 'references': ['stage0.a:ref']}],
+        }
+
+    QUERIES = [((0, 'a'), 'default', False), ((0, 'b'), 'default', False), ((0, 'a'), 'hpc', False), ((1, 'c'), 'hpc', False),
+               ((0, 'a'), 'default', True), ((0, 'b'), 'hpc', True), ((0, 'a'), None, False)]
+
+    def run(self, tier='quick', seed=0):
+        import copy, itertools, logging
+        FlowIRConcrete = flowir_mod.FlowIRConcrete
+        logging.disable(logging.CRITICAL)
+        bad, cases = [], 0
+
+        def ask(conc, q):
+            cid, plat, raw = q
+            return conc.get_component_configuration(cid, platform=plat, raw=raw, include_default=True)
+
+        def fresh(q):
+            return ask(FlowIRConcrete(copy.deepcopy(self.document()), 'default', {}), q)
+        try:
+            expected = {i: fresh(q) for i, q in enumerate(self.QUERIES)}
+            for order in itertools.permutations(range(len(self.QUERIES)), 3):
+                for edit in (False, True):
+                    cases += 1
+                    conc = FlowIRConcrete(copy.deepcopy(self.document()), 'default', {})
+                    before = copy.deepcopy(conc.raw())
+                    what = None
+                    for step, i in enumerate(order):
+                        got = ask(conc, self.QUERIES[i])
+                        if got != expected[i]:
+                            what = "query %r after %r differs from the answer of a fresh object" % (self.QUERIES[i], [self.QUERIES[j] for j in order[:step]])
+                            break
+                        if edit:
+                            # the caller edits what it got: later answers must not change
+                            self._scribble(got)
+                    if what is None and conc.raw() != before:
+                        what = "the stored description changed after the queries %r" % ([self.QUERIES[j] for j in order],)
+                    if what:
+                        bad.append({"what": what + (" (callers edited the results)" if edit else ""), "replay": self._replay(order, edit, what)})
+                        break
+                if bad:
+                    break
+        finally:
+            logging.disable(logging.NOTSET)
+        return {"name": self.name, "bounded": True, "bound": "every sequence of 3 of %d queries, with and without callers editing the results" % len(self.QUERIES),
+                "cases": cases, "violations": bad[:3], "summary": "%d query sequences, %d wrong" % (cases, len(bad))}
+
+    @staticmethod
+    def _scribble(obj):
+        if isinstance(obj, dict):
+            for k in list(obj):
+                QueryFrameBounded._scribble(obj[k])
+            obj['__edited_by_the_caller__'] = True
+        elif isinstance(obj, list):
+            for x in obj:
+                QueryFrameBounded._scribble(x)
+            obj.append('__edited_by_the_caller__')
+
+    def _replay(self, order, edit, what):
+        import json, os
+        base = os.environ.get('PYVC_OUT') or os.path.dirname(os.path.dirname(os.path.abspath(__file__)))
+        p = os.path.join(base, 'replays', 'C08')
+        os.makedirs(p, exist_ok=True)
+        fn = os.path.join(p, 'query_frame.json')
+        json.dump({"check": self.name, "queries": [repr(self.QUERIES[i]) for i in order], "callers_edit_results": edit, "failed": what,
+                   "how": "FlowIRConcrete(QueryFrameBounded.document(), 'default', {}); get_component_configuration(cid, platform=, raw=) in this order; "
+                          "compare with a fresh FlowIRConcrete and with raw() before"}, open(fn, 'w'), indent=1)
+        return fn
+
+
 TARGETS = MUTATORS + [ConfSetOption(), ConfRemoveOption(), CacheProtocol(), CacheGet(), CacheInvalidateRe(), CacheClear()]
 LEMMAS = [RegexKeyAdequacy()]
+BOUNDED = [QueryFrameBounded()]
